@@ -159,4 +159,29 @@ def FSys.run (T : Table) : FSys → List FLabel → Option (FSys × List Seq)
       | none => none
       | some (f2, o2) => some (f2, o1 ++ o2)
 
+/-! ### variant for the witnesses: a callback that does not compare generations
+
+Same statements, but the check always passes (the callback as it would be with the mutex alone).
+`Props/C08Fine.lean : fine_needs_generation_check` shows that the theorems about `FSys.step` do not
+hold of it. -/
+
+def cbStepNoCheck (f : FSys) (i : Nat) : Option (FSys × List Seq) :=
+  match f.cbs[i]? with
+  | some (g, .locked) => some ({ f with cbs := f.cbs.set i (g, .passed) }, [])
+  | _ => cbStep f i
+
+def FSys.stepNoCheck (T : Table) (f : FSys) : FLabel → Option (FSys × List Seq)
+  | .cb i => cbStepNoCheck f i
+  | l => FSys.step T f l
+
+def FSys.runNoCheck (T : Table) : FSys → List FLabel → Option (FSys × List Seq)
+  | f, [] => some (f, [])
+  | f, l :: ls =>
+    match FSys.stepNoCheck T f l with
+    | none => none
+    | some (f1, o1) =>
+      match FSys.runNoCheck T f1 ls with
+      | none => none
+      | some (f2, o2) => some (f2, o1 ++ o2)
+
 end VaxisModel.Model.ParserRunFine
